@@ -215,6 +215,41 @@ def check_group_specifications(ctx: Ctx):
             continue
         got = describe(o) if isinstance(o, Obj) else None
         ctx.decide("R12.6", init, init.node if init else None, construct_name, "the specification yields groups with exactly the given names, labels, kind and single-instance flag", (got == want) if got is not None else None, {"got": repr(got)[:300], "want": repr(want)[:300]})
+        if isinstance(o, Obj) and got is not None:
+            _check_defined_labels(ctx, prog, scg, o, got, construct_name)
+    # names that differ only in case denote one group (names are lower-cased): the later entry replaces the earlier
+    # one, and with it go the earlier one's labels - they belong to no group any more
+    try:
+        o = construct(prog, scg, {"groups": {"Lesion": ([1, 2], False), "lesion": ([3], False), "rim": ([4], False)}})
+        got = describe(o) if isinstance(o, Obj) else None
+        if got is not None:
+            _check_defined_labels(ctx, prog, scg, o, got, f"{scg.qual}.__init__:names-differing-in-case")
+    except Undecided:
+        pass
+
+
+def _check_defined_labels(ctx, prog, scg, o, got, construct_name):
+    """the labels the collection declares 'defined' (its own check of input arrays) are exactly the labels of the
+    groups it holds: asked label by label through has_defined_labels_for"""
+    f = scg.lookup("has_defined_labels_for")
+    if f is None:
+        return
+    from ..absval import Interp
+
+    held = sorted({l for (_k, labels, _si) in got.values() for l in (labels or [])})
+    wrong = {}
+    for lbl in sorted(set(held) | {1, 2, 3, 4, 5, 9}):
+        params = [p.name for p in f.call_params]
+        args = {params[0]: [lbl]}
+        if len(params) > 1:
+            args[params[1]] = False
+        out = Interp(prog, f, args, self_obj=o).run()
+        if out.kind != "return" or out.decisions or not isinstance(out.value, bool):
+            ctx.undecided("R12.6", f, f.node, construct_name + ":defined-labels", f"label check not evaluable for label {lbl}: {out.kind} {out.exc or ''}")
+            return
+        if out.value != (lbl in held):
+            wrong[lbl] = out.value
+    ctx.decide("R12.6", f, f.node, construct_name + ":defined-labels", "a label counts as defined exactly if one of the groups held lists it (input with any other non-zero label is rejected)", not wrong, {"labels_of_held_groups": held, "wrongly_answered": {str(k): v for k, v in wrong.items()}} if wrong else None)
 
 
 def _run_rule(ctx, name, fn):
